@@ -2,7 +2,6 @@ package main
 
 import (
 	"fmt"
-	"net"
 	"strconv"
 	"sync/atomic"
 	"time"
@@ -53,26 +52,25 @@ type TCPSvc struct {
 }
 
 func startTCPSvc(s *sutc.SUT, hosts []sutc.Host, o TCPOpts) (*TCPSvc, error) {
-	name := fmt.Sprintf("t%d_%d", s.Pid(), atomic.AddInt64(&svcSeq, 1))
-	port := freePort()
-	if err := s.NewProc(name, tcpConfigJSON(port, o), hosts); err != nil {
-		return nil, fmt.Errorf("proc_new: %v", err)
-	}
-	if err := s.StartProc(name); err != nil {
-		return nil, fmt.Errorf("proc_start: %v", err)
-	}
-	svc := &TCPSvc{S: s, Name: name, Port: port, Addr: "127.0.0.1:" + strconv.Itoa(port)}
-	deadline := time.Now().Add(10 * time.Second)
-	for {
-		c, err := net.DialTimeout("tcp", svc.Addr, time.Second)
-		if err == nil {
-			c.Close()
-			break
+	var lastErr error
+	for attempt := 0; attempt < 5; attempt++ {
+		name := fmt.Sprintf("t%d_%d", s.Pid(), atomic.AddInt64(&svcSeq, 1))
+		port, release := holdPort()
+		if err := s.NewProc(name, tcpConfigJSON(port, o), hosts); err != nil {
+			release()
+			return nil, fmt.Errorf("proc_new: %v", err)
 		}
-		if time.Now().After(deadline) {
-			return nil, fmt.Errorf("listener of %s did not come up: %v", name, err)
+		if err := s.StartProc(name); err != nil {
+			return nil, fmt.Errorf("proc_start: %v", err)
 		}
-		time.Sleep(5 * time.Millisecond)
+		svc := &TCPSvc{S: s, Name: name, Port: port, Addr: "127.0.0.1:" + strconv.Itoa(port)}
+		ok := waitBound(s, name, svc.Addr, 3*time.Second)
+		release()
+		if ok {
+			return svc, nil
+		}
+		lastErr = fmt.Errorf("listener of %s did not bind %s", name, svc.Addr)
+		s.StopProc(name, 10*time.Second)
 	}
-	return svc, nil
+	return nil, lastErr
 }
